@@ -1284,6 +1284,12 @@ def parse_set_literal(lexer, token):
             return deref_or_invoke(lexer, s)
 
 
+def _is_bare_key(key):
+    # an identifier key stands for the string of its name; NULL is the null
+    # value here as everywhere else (a map with a NULL key renders that way)
+    return isinstance(key, NodeIdentifier) and key.value != "NULL"
+
+
 def parse_map_literal(lexer, token):
     if lexer.matchIf(">>>", "interpunction"):
         return deref_or_invoke(lexer, NodeMap(token.pos))
@@ -1311,14 +1317,14 @@ def parse_map_literal(lexer, token):
             return deref_or_invoke(lexer, comprehension)
         else:
             m = NodeMap(token.pos)
-            if isinstance(key, NodeIdentifier):
+            if _is_bare_key(key):
                 key = NodeLiteral(ValueString(key.value), key.pos)
             m.addKeyValue(key, value)
             if not lexer.peekn(1, ">>>", "interpunction"):
                 lexer.match(",", "interpunction")
             while not lexer.peekn(1, ">>>", "interpunction"):
                 key = parse_expression(lexer)
-                if isinstance(key, NodeIdentifier):
+                if _is_bare_key(key):
                     key = NodeLiteral(ValueString(key.value), key.pos)
                 lexer.match("=>", "interpunction")
                 value = parse_expression(lexer)
